@@ -102,7 +102,7 @@ func (m *coreModel) buildCanon() {
 
 // inline: helpers of the evaluator (root package, no receiver or the evaluator as receiver) that are not canonical.
 func (m *coreModel) inline(caller, callee *ssa.Function) bool {
-	if callee.Pkg == nil || m.top == nil || callee.Pkg != m.top.Pkg {
+	if pkgOf(callee) == nil || m.top == nil || pkgOf(callee) != m.top.Pkg {
 		return false
 	}
 	if callee.Signature.Recv() != nil && !m.w.isCompilerMethod(callee) {
@@ -111,7 +111,7 @@ func (m *coreModel) inline(caller, callee *ssa.Function) bool {
 	if m.canonicalSet()[callee] {
 		return false
 	}
-	if callee.Object() != nil && callee.Object().Exported() {
+	if fnObject(callee) != nil && fnObject(callee).Exported() {
 		return false
 	}
 	return true
